@@ -112,6 +112,10 @@ pub fn run(a: &Args) -> Report {
         let mut stable = String::new();
         let mut panicked = false;
         for t in &texts {
+            if case < n && eg.num_tuples() > 20000 {
+                // deterministic cut-off (depends only on the program), keeps dumps tractable
+                break;
+            }
             match run::run_raw(&mut eg, t) {
                 Ok(outs) => {
                     full.push_str(&render_full(&outs));
